@@ -5,5 +5,6 @@ INVARIANT NoCrash
 INVARIANT OutPrefix
 INVARIANT FinishedComplete
 INVARIANT NoAbortWithoutFault
+INVARIANT NoLiveWorkerAtExit
 PROPERTY Terminates
 CHECK_DEADLOCK FALSE
